@@ -34,6 +34,10 @@ def _clamp(iv, n):
 
 
 def ieval(n, env, fn=None, depth=0):
+    return _ieval(n, env, fn, depth)
+
+
+def _ieval(n, env, fn=None, depth=0):
     """Interval of integer expression n. env: decl id -> Iv (parameters / locals with known range),
     or ('path', tuple) -> Iv for fields."""
     n0 = n
@@ -55,6 +59,9 @@ def ieval(n, env, fn=None, depth=0):
     if k == "DeclRefExpr":
         if n.d["d"] in env:
             return env[n.d["d"]]
+        lz = env.get("__inits__")
+        if lz and n.d["d"] in lz:
+            return _clamp(ieval(lz[n.d["d"]], env, fn, depth + 1), n)
         return type_range(n)
     if k == "MemberExpr":
         p = path(n)
@@ -132,7 +139,7 @@ def refine_env(env, cond, truth, keyof):
                 kx = keyof(x)
                 if kx is None:
                     continue
-                cur = env.get(kx) or type_range(x.strip())
+                cur = env.get(kx) or ieval(x, env)
                 yi = ieval(y, env)
                 lo, hi = cur.lo, cur.hi
                 if o == "<":
@@ -155,7 +162,7 @@ def refine_env(env, cond, truth, keyof):
             return
         kx = keyof(a)
         if kx is not None:
-            cur = env.get(kx) or type_range(a)
+            cur = env.get(kx) or ieval(a, env)
             if v:   # x != 0
                 if cur.lo == 0:
                     env[kx] = Iv(1, cur.hi)
@@ -186,7 +193,28 @@ def check_shifts(ctx, rule, fn, domains, instance_prefix=None, only=None):
         if name not in pmap:
             raise AnalysisBroken("anchor vanished: parameter %s of %s" % (name, fn.qn))
         env0[pmap[name]] = iv
-    keyof = param_keyof(fn)
+    # once-initialised, never reassigned integer locals are evaluated lazily from their initialiser,
+    # so that a branch fact on one local (offset != 0) also narrows locals derived from it (64 - offset)
+    from . import rules_atomic as RA
+    inits = RA.local_inits(fn)
+    lz = {}
+    for did, init in inits.items():
+        if did in env0 or RA._reassigned(fn, did):
+            continue
+        if init.get("bits") or init.strip().get("bits"):
+            lz[did] = init
+    env0["__inits__"] = lz
+    lids = set(lz)
+    pk = param_keyof(fn)
+
+    def keyof(n):
+        k = pk(n)
+        if k is not None:
+            return k
+        n = n.strip()
+        if n.kind == "DeclRefExpr" and n.d["d"] in lids:
+            return n.d["d"]
+        return None
     shifts = [n for n in fn.events() if n.kind in ("BinaryOperator", "CompoundAssignOperator")
               and n.op in ("<<", ">>", "<<=", ">>=")]
     shifts.sort(key=lambda n: n.loc)
@@ -195,6 +223,8 @@ def check_shifts(ctx, rule, fn, domains, instance_prefix=None, only=None):
         env = dict(env0)
         for cond, truth in flow.facts_at(fn, s.id):
             env = refine_env(env, cond, truth, keyof)
+        if only is not None and not only(s):
+            continue
         cnt = ieval(s.children[1], env, fn)
         width = s.children[0].get("bits") if s.op in ("<<=", ">>=") else s.get("bits")
         width = width or 64
